@@ -100,6 +100,7 @@ def cases(tier, seed):
         rng = gen.rng_for(seed, "C08", "addr", i)
         yield {"k": "addr", "ctx": R.rand_ctx(rng, 3 if i % 4 else 2)}
     yield {"k": "addr", "ctx": {}}
+    yield {"k": "addr_dotted"}
     yield {"k": "roundtrip"}
     for i in range(NFMT[tier]):
         rng = gen.rng_for(seed, "C08", "fmt", i)
@@ -227,7 +228,8 @@ def run_case(r, obs):
     import lena.meta
     ctl = Ctl(obs)
     try:
-        {"addr": run_addr, "roundtrip": run_roundtrip, "fmt": run_fmt, "upd": run_upd,
+        {"addr": run_addr, "addr_dotted": run_addr_dotted, "roundtrip": run_roundtrip,
+         "fmt": run_fmt, "upd": run_upd,
          "tostr": run_tostr, "malformed": run_malformed}[r["k"]](r, obs, ctl)
     finally:
         ctl.close()
@@ -327,6 +329,63 @@ def run_addr(r, obs, ctl):
     obs.nontrivial = "present" in seen_shapes and len(seen_shapes) >= 3
 
 
+DOTTED_CTXS = [
+    {"a": {"b.c": 1, "b": {"c": 2}}},
+    {"a.b": {"c": 1}, "a": {"b": {"c": 2}}},
+    {"input": {"run1.root": {"n": 1}, "run1": {"root": 5}}, "k": 0},
+    {"a": {"b.c": {"d.e": [1]}}, "a.b.c": 7},
+]
+DOTTED_PATHS = [["a", "b.c"], ["a.b", "c"], ["a.b"], ["a", "b", "c"], ["input", "run1.root"],
+                ["input", "run1.root", "n"], ["input", "run1", "root"], ["a", "x.y"],
+                ["a", "b.c", "d.e"], ["a.b.c"], ["k", "z.z"]]
+
+
+def run_addr_dotted(r, obs, ctl):
+    """Keys that contain a dot (file names are typical) have no dotted-string notation, but
+    a list / tuple of keys and a one-key-per-level dictionary name them unambiguously."""
+    import lena.context as LC
+    obs.nontrivial = True
+    for ctx0 in DOTTED_CTXS:
+        for p in DOTTED_PATHS:
+            ctx = R.cp(ctx0)
+            exp = R.get(ctx, p)
+            forms = [("list", list(p)), ("dict-empty-terminal", nested(p, {}))]
+            if len(p) >= 2:
+                forms.append(("dict-value-terminal", nested(p[:-1], p[-1])))
+            for form, keys in forms:
+                out = ctl.call("get_recursively", "dotted-component",
+                               lambda: LC.get_recursively(ctx, keys),
+                               lambda: "get_recursively(%r, %r)" % (ctx, keys))
+                obs.count("lookups")
+                ctl.evals += 1
+                if out[0] == "foreign":
+                    continue
+                good = out[0] == "LenaKeyError" if exp is R.ABSENT else \
+                    (out[0] == "ok" and out[1] is exp)
+                if not good:
+                    ctl.fail("get_recursively-wrong-result:%s:dotted-component" % form,
+                             "get_recursively(%r, %r) -> %s %r, reference lookup gives %r"
+                             % (ctx, keys, out[0], out[1], exp))
+            for form, key in (("list", list(p)), ("tuple", tuple(p))):
+                c = R.cp(ctx0)
+                val = (["D"], c)
+                out = ctl.call("DeleteContext", "dotted-component",
+                               lambda: LC.DeleteContext(key)(val),
+                               lambda: "DeleteContext(%r) on context %r" % (key, ctx0))
+                obs.count("delete_calls")
+                ctl.evals += 1
+                if out[0] == "foreign":
+                    continue
+                expd = R.delete(R.cp(ctx0), p)
+                if out[0] != "ok":
+                    ctl.fail("DeleteContext-raises-%s:dotted-component" % out[0],
+                             "DeleteContext(%r) on %r raised %r" % (key, ctx0, out[1]))
+                elif c != expd or out[1] is not val:
+                    ctl.fail("DeleteContext-wrong-context:dotted-component",
+                             "DeleteContext(%r) (a %s of keys, one of which contains a dot) on "
+                             "%r left %r, expected %r" % (key, form, ctx0, c, expd))
+
+
 def run_roundtrip(r, obs, ctl):
     import lena.context as LC
     obs.nontrivial = True
@@ -406,6 +465,30 @@ def run_fmt(r, obs, ctl):
                 if not (out[0] == "ok" and out[1] == exp and type(out[1]) is str):
                     ctl.fail("format_context-wrong-rendering",
                              "format_context(%r)(%r) -> %r, expected %r" % (ts, ctx, out, exp))
+        # the same formatter object used again (elements build it once and call it for every
+        # value of a flow): each call renders its own context, whatever the earlier calls met
+        if out[0] != "foreign" and flds:
+            stripped = R.cp(ctx)
+            top = flds[0][1][0] if flds[0][1] else None
+            if isinstance(stripped, dict) and top in stripped:
+                del stripped[top]
+            for c2 in ({}, ctx, stripped, ctx, {"unrelated": 1}, ctx):
+                exp2 = R.render_format(pieces, c2)
+                c2c = R.cp(c2)
+                out2 = ctl.call("format_context", "formatter-reused", lambda: mk[1](c2c),
+                                lambda: "format_context(%r) reused on %r" % (ts, c2))
+                obs.count("renderings_by_a_reused_formatter")
+                ctl.evals += 1
+                if out2[0] == "foreign":
+                    break
+                good = (out2[0] == "LenaKeyError") if exp2 is R.ABSENT else \
+                    (out2[0] == "ok" and out2[1] == exp2)
+                if not good:
+                    ctl.fail("format_context-reused-formatter-wrong",
+                             "f = format_context(%r); after f was applied to other contexts "
+                             "(some without the fields), f(%r) -> %r, expected %s"
+                             % (ts, c2, out2, "LenaKeyError" if exp2 is R.ABSENT else repr(exp2)))
+                    break
         # format_update_with / SetContext with the same template as value
         key = r["keys"][ti % len(r["keys"])]
         ks = ".".join(key)
